@@ -783,6 +783,10 @@ func assign(n *node) {
 	}
 
 	if n.kind == defineStmt {
+		redeclare := false
+		for _, c := range n.child[:n.nleft] {
+			redeclare = redeclare || c.redeclared
+		}
 		// Handle a multiple var declararation / assign. A redeclared variable may
 		// appear in the right hand side: evaluate all sources before setting any
 		// destination.
@@ -793,6 +797,12 @@ func assign(n *node) {
 					continue
 				}
 				t[i] = s(f)
+				if redeclare {
+					// The source may be in a redeclared variable, which is set in place: copy it.
+					v := reflect.New(t[i].Type()).Elem()
+					v.Set(t[i])
+					t[i] = v
+				}
 			}
 			for i, v := range t {
 				if n.child[i].ident == "_" {
@@ -800,7 +810,9 @@ func assign(n *node) {
 				}
 				data := getFrame(f, level[i]).data
 				j := index[i]
-				data[j] = reflect.New(data[j].Type()).Elem()
+				if !n.child[i].redeclared {
+					data[j] = reflect.New(data[j].Type()).Elem()
+				}
 				data[j].Set(v)
 			}
 			return next
